@@ -106,7 +106,8 @@ def handle (_ : Unit) (j : Json) : R (Unit × Json) := do
     let statm := renderStatm st
     let rb := renderRollup (rollupKeysOf ms) ms
     let rollup ← parseRollupMode mode rb
-    let wf := wfSmaps cfg.stripsPath ms && ms.all (fsConsistent probe) && uniformUnits ms
+    -- the full domain of the property (names ending in blanks included), whatever the code does
+    let wf := wfSmaps false ms && ms.all (fsConsistent probe)
     let rows := ms.map specRow
     -- the spec speaks about well-formed kernel content; empty smaps: [] / ZombieProcess
     let specMaps : Json :=
